@@ -2,6 +2,7 @@ package main
 
 import (
 	"fmt"
+	"go/token"
 	"go/types"
 	"os"
 	"strings"
@@ -146,6 +147,7 @@ func runC06(c *Ctx) {
 	ruleHasBodyGate(c, "R06.0")
 	ruleContentTypeAccessorParses(c, "R06.1")
 	ruleRoutableAPIDelegates(c, "R06.4", "ConsumersFor", "DefaultConsumes")
+	ruleRegistryEntriesByOwnKey(c, "R06.4", "(*rt/middleware/untyped.API).ConsumersFor", "consumers")
 	// the consumer of a request is chosen by the content-type stage alone (from the request's parsed media type):
 	// nothing else pre-selects MatchedRoute.Consumer — the untyped stage keeps a consumer it finds already set
 	for _, fn := range p.LibFuncs("rt/middleware") {
@@ -304,9 +306,61 @@ func runC06(c *Ctx) {
 						k, ok := constInt(e.Call.Args[0])
 						return ok && k == 500
 					}, "github.com/go-openapi/errors.New")
+					// (the error may be kept in a local first and appended once at the end of the step)
+					reachesAppend := func(v ssa.Value) bool {
+						seenV := map[ssa.Value]bool{}
+						var walkV func(x ssa.Value, d int) bool
+						walkV = func(x ssa.Value, d int) bool {
+							if seenV[x] || d > 5 || x.Referrers() == nil {
+								return false
+							}
+							seenV[x] = true
+							for _, ref := range *x.Referrers() {
+								switch y := ref.(type) {
+								case *ssa.Phi:
+									if walkV(y, d+1) {
+										return true
+									}
+								case *ssa.MakeInterface:
+									if walkV(y, d+1) {
+										return true
+									}
+								case *ssa.ChangeInterface:
+									if walkV(y, d+1) {
+										return true
+									}
+								case *ssa.Store:
+									// a one-element variadic slice literal handed to append
+									if ia, isIA := y.Addr.(*ssa.IndexAddr); isIA {
+										if ia.X.Referrers() != nil {
+											for _, r2 := range *ia.X.Referrers() {
+												if sl, isSl := r2.(*ssa.Slice); isSl && sl.Referrers() != nil {
+													for _, r3 := range *sl.Referrers() {
+														if ap, isAp := r3.(*ssa.Call); isAp && calleeName(&ap.Call) == "builtin append" {
+															return true
+														}
+													}
+												}
+											}
+										}
+									}
+								}
+							}
+							return false
+						}
+						return walkV(v, 0)
+					}
+					is500Kept := func(in ssa.Instruction) bool {
+						e, ok := in.(*ssa.Call)
+						if !ok || calleeName(&e.Call) != "github.com/go-openapi/errors.New" {
+							return false
+						}
+						k, isK := constInt(e.Call.Args[0])
+						return isK && k == 500 && reachesAppend(e)
+					}
 					missOK := true
 					for _, r := range returnsOf(f) {
-						if pathExists(f, lk, r, factBool(vIs(okv), true), is500) {
+						if pathExists(f, lk, r, factBool(vIs(okv), true), func(in ssa.Instruction) bool { return is500(in) || is500Kept(in) }) {
 							missOK = false
 						}
 					}
@@ -501,6 +555,76 @@ func runC06(c *Ctx) {
 		if strings.HasPrefix(name, "github.com/go-openapi/swag.ContainsStrings") {
 			c.obI("R06.3", ci, "case-insensitive-membership", name == "github.com/go-openapi/swag.ContainsStringsCI" && isAllowed(ci.Common().Args[0]), "membership in the consumes list is tested case-insensitively", "uses "+name)
 			form := classify(ci.Common().Args[1])
+			// (judged where the <type>/* text is built: at this call, or at the calls of the local helper it is handed to)
+			type tsite struct {
+				at  ssa.Instruction
+				arg ssa.Value
+			}
+			tsites := []tsite{{ci, ci.Common().Args[1]}}
+			if prm, isP := ci.Common().Args[1].(*ssa.Parameter); isP && curProg != nil && curProg.ti != nil {
+				tsites = nil
+				for pos, pp := range prm.Parent().Params {
+					if pp != prm {
+						continue
+					}
+					for _, cs := range curProg.ti.callers[prm.Parent()] {
+						if pos < len(cs.Common().Args) {
+							tsites = append(tsites, tsite{cs, cs.Common().Args[pos]})
+						}
+					}
+				}
+			}
+			for _, ts := range tsites {
+				isTypeForm := false
+				for _, o := range originsOf(ts.arg) {
+					if bo, isBo := o.V.(*ssa.BinOp); isBo && bo.Op == token.ADD {
+						if k, isK := constString(bo.Y); isK && k == "/*" {
+							isTypeForm = true
+						}
+					}
+				}
+				if !isTypeForm {
+					continue
+				}
+				ci := ts.at
+				// the type/* rule applies to values of the shape type/subtype only (exactly one '/'): a bare token that
+				// happens to parse ("text") is not admitted through "text/*" — it has no consumer and would end in a 500
+				twoParts := func(cond ssa.Value, branch bool) bool {
+					isSplitLen := func(v ssa.Value) bool {
+						okL, _ := allOrigins(v, oCallWhere(-1, "builtin len", func(lc *ssa.Call) bool {
+							okk, _ := allOrigins(lc.Call.Args[0], oCall(-1, "strings.Split", "strings.SplitN"))
+							return okk
+						}))
+						return okL
+					}
+					if factEqInt(isSplitLen, 2, true)(cond, branch) {
+						return true
+					}
+					// strings.Cut(x, "/") found
+					isFound := func(v ssa.Value) bool {
+						ex, ok := v.(*ssa.Extract)
+						if !ok {
+							return false
+						}
+						cc := asCall(ex.Tuple)
+						return cc != nil && calleeName(&cc.Call) == "strings.Cut" && ex.Index == 2
+					}
+					return factBool(isFound, true)(cond, branch)
+				}
+				// (the text may also be prepared ahead and left empty for other shapes: then building it is what is guarded)
+				okG := guardedBy(ci, nil, twoParts)
+				if !okG {
+					okG = true
+					for _, o := range originsOf(ts.arg) {
+						if bo, isBo := o.V.(*ssa.BinOp); isBo && bo.Op == token.ADD {
+							if !guardedBy(bo, nil, twoParts) {
+								okG = false
+							}
+						}
+					}
+				}
+				c.obI("R06.3", ci, "type-wildcard-only-for-type-slash-subtype", okG, "the <type>/* entry is consulted only for a value made of exactly a type and a subtype", "the type/* test is reachable for a value without a subtype")
+			}
 			c.obI("R06.3", ci, "admission-form-is-one-of-three", form != "", "what is looked up in the consumes list is the parsed media type, \"*/*\" or <type>/* — nothing else admits a body (no suffix, prefix or family rule: the consumer table is keyed by the exact type)", "the consumes list is searched for "+describe(ci.Common().Args[1]))
 		}
 		if call, isCall := ci.(*ssa.Call); isCall {
